@@ -3,9 +3,9 @@ CONSTANTS
   PKs = {1, 2}
   Vals = {0, 1}
   Pays = {0}
-  MaxOps = 3
-  MaxSaves = 2
-  Preload <- PreloadOne
+  MaxOps = 4
+  MaxSaves = 1
+  Preload <- PreloadAll
   EmitOn = FALSE
 VIEW view
 INVARIANTS TypeOK JournalAgrees PresenceAgrees Saved IndexExact
